@@ -135,7 +135,14 @@ func (s *manager) DisconnectClients(ctx context.Context) {
 	}
 }
 
-func (s *setupWorker) setup(ctx context.Context, m transport.Metadata) error {
+func (s *setupWorker) setup(ctx context.Context, m transport.Metadata) (err error) {
+	defer func() {
+		// the packet decoder panics on some malformed packets
+		if r := recover(); r != nil {
+			L(ctx).Warn("panic while setting up connection", zap.Any("panic", r))
+			err = ErrProtocolViolation
+		}
+	}()
 	c := m.Channel
 	c.SetReadDeadline(
 		time.Now().Add(connectTimeout),
@@ -258,7 +265,15 @@ type timeoutError interface {
 	Timeout() bool
 }
 
-func (s *connectionWorker) processSession(ctx context.Context, session *sessions.Session) bool {
+func (s *connectionWorker) processSession(ctx context.Context, session *sessions.Session) (ok bool) {
+	defer func() {
+		// the packet decoder panics on some malformed packets: end this
+		// session, not the process
+		if r := recover(); r != nil {
+			L(ctx).Warn("panic while processing packet", zap.Any("panic", r))
+			ok = false
+		}
+	}()
 	c := session.ReadWriter()
 	started := time.Now()
 	pkt, err := s.decoder.Decode(c)
